@@ -7,17 +7,30 @@
 #define CAP 16
 #endif
 typedef int T;
-T* gp_data; T** gpp_data; int g_i, g_n, g_f, g_dst; T g_t; int g_mm;
+T* gp_data; T** gpp_data; int g_i, g_n, g_f, g_dst; T g_t; int g_mm, g_rr;
 int g_k, g_s0, g_m0; T v_old;
 
 #define WF (__CPROVER_is_fresh(thesize, sizeof(int)) && __CPROVER_is_fresh(themax, sizeof(int)) \
    && 1 <= *themax && *themax <= CAP && 0 <= *thesize && *thesize <= *themax \
    && __CPROVER_is_fresh(data, *themax * sizeof(T)) && 1.0 <= memFactor && memFactor <= 4.0 \
-   && g_s0 == *thesize && g_m0 == *themax)
+   && g_s0 == *thesize && g_m0 == *themax && g_rr == g_k)
 #define WF_POST (1 <= *themax && 0 <= *thesize && *thesize <= *themax \
    && __CPROVER_rw_ok(__CPROVER_return_value, *themax * sizeof(T)))
 #define RET __CPROVER_return_value
 #define COMMON_ASSIGNS __CPROVER_assigns(gp_data, gpp_data, g_t, *thesize, *themax, __CPROVER_object_whole(data)) __CPROVER_frees(data)
+
+/* ISO C realloc (successful), as a contract: a fresh block of n bytes whose first min(n, old size) bytes equal the old
+ * block's (stated at the ghost element g_rr = for every element); the old block is released.  g_m0 = the old block's
+ * length in elements (checked against the real object size at the call). */
+#define RR_IN (0 <= g_rr && g_rr < g_m0 && g_rr * sizeof(T) < n)
+void* verif_realloc(void* p, size_t n)
+__CPROVER_requires(0 < n && n <= 8 * CAP * sizeof(T) && __CPROVER_is_freeable(p))
+__CPROVER_requires(0 < g_m0 && __CPROVER_OBJECT_SIZE(p) == g_m0 * sizeof(T) && __CPROVER_r_ok(p, g_m0 * sizeof(T)))
+__CPROVER_assigns()
+__CPROVER_frees(p)
+__CPROVER_ensures(__CPROVER_is_fresh(__CPROVER_return_value, n))
+__CPROVER_ensures(!RR_IN || ((T*)__CPROVER_return_value)[RR_IN ? g_rr : 0] == __CPROVER_old(((const T*)p)[RR_IN ? g_rr : 0]))
+;
 
 /* ISO C memmove, as a contract (used with --replace-call-with-contract): the destination range receives the OLD contents
  * of the source range (stated at the ghost element g_mm = for every element), nothing else is written. */
@@ -96,7 +109,7 @@ __CPROVER_ensures(!(g_k < *thesize) || RET[g_k] == v_old)
 void h_op(void)
 {
    T* data; int* thesize; int* themax; double memFactor; int op, a, b; T t;
-   g_k = nondet_int(); g_s0 = nondet_int(); g_m0 = nondet_int(); v_old = nondet_int(); g_i = nondet_int(); g_n = nondet_int(); g_mm = nondet_int(); g_t = nondet_int(); g_f = nondet_int(); g_dst = nondet_int();
+   g_k = nondet_int(); g_s0 = nondet_int(); g_m0 = nondet_int(); v_old = nondet_int(); g_i = nondet_int(); g_n = nondet_int(); g_mm = nondet_int(); g_rr = nondet_int(); g_t = nondet_int(); g_f = nondet_int(); g_dst = nondet_int();
    w_op(data, thesize, themax, memFactor, op, a, b, t);
    CANARY();
 }
